@@ -503,5 +503,180 @@ func structureObligations(prog *Program, tag string) []*Obligation {
 		}
 		out = append(out, o)
 	}
+	for _, c := range prog.Contracts.Impls {
+		if tag != "" && !hasTag(c.Tags, tag) {
+			continue
+		}
+		out = append(out, implObligation(prog, c))
+	}
 	return out
+}
+
+// implObligation: `impl S.f *T` — every non-test write of field f of S stores a value that is statically a *T:
+// an expression of that type, or the result of a package function all of whose returns give nil or a *T.
+func implObligation(prog *Program, c *Clause) *Obligation {
+	info := prog.Main.TypesInfo
+	fs := strings.Fields(c.Src)
+	owner, field := fs[0][:strings.Index(fs[0], ".")], fs[0][strings.Index(fs[0], ".")+1:]
+	want := strings.TrimPrefix(fs[1], "*")
+	label := "field " + fs[0] + " only ever holds a " + fs[1]
+	o := &Obligation{Func: "structure", Kind: "structure", Label: label, Tags: c.Tags, Name: "structure[" + label + "]", Trivial: true, Result: "unsat", Solver: "syntactic scan"}
+	isT := func(t types.Type) bool {
+		p, ok := t.(*types.Pointer)
+		if !ok {
+			return false
+		}
+		n, ok := p.Elem().(*types.Named)
+		return ok && n.Obj().Name() == want
+	}
+	funcOK := func(fn *types.Func) bool {
+		for _, f := range prog.Main.Syntax {
+			for _, d := range f.Decls {
+				fd, ok := d.(*ast.FuncDecl)
+				if !ok || info.Defs[fd.Name] != fn || fd.Body == nil {
+					continue
+				}
+				ok2 := true
+				ast.Inspect(fd.Body, func(n ast.Node) bool {
+					if _, isLit := n.(*ast.FuncLit); isLit {
+						return false
+					}
+					if r, isRet := n.(*ast.ReturnStmt); isRet {
+						if len(r.Results) == 0 {
+							ok2 = false
+						} else if tv, has := info.Types[r.Results[0]]; !has || !(tv.IsNil() || isT(tv.Type)) {
+							ok2 = false
+						}
+					}
+					return true
+				})
+				return ok2
+			}
+		}
+		return false
+	}
+	var valueOK func(e ast.Expr, depth int) bool
+	valueOK = func(e ast.Expr, depth int) bool {
+		e = unparen(e)
+		if tv, has := info.Types[e]; has && isT(tv.Type) {
+			return true
+		}
+		if depth > 3 {
+			return false
+		}
+		switch v := e.(type) {
+		case *ast.CallExpr:
+			if id, ok := unparen(v.Fun).(*ast.Ident); ok {
+				if fn, ok := info.Uses[id].(*types.Func); ok {
+					return funcOK(fn)
+				}
+			}
+		case *ast.Ident:
+			obj := info.Uses[v]
+			if obj == nil {
+				return false
+			}
+			// the single definition `v, ... := call(...)`, never reassigned
+			var def ast.Expr
+			n := 0
+			for _, f := range prog.Main.Syntax {
+				ast.Inspect(f, func(nd ast.Node) bool {
+					as, ok := nd.(*ast.AssignStmt)
+					if !ok {
+						return true
+					}
+					for i, l := range as.Lhs {
+						id, ok := l.(*ast.Ident)
+						if !ok || (info.Defs[id] != obj && info.Uses[id] != obj) {
+							continue
+						}
+						n++
+						if len(as.Rhs) == 1 {
+							def = as.Rhs[0]
+						} else if i < len(as.Rhs) {
+							def = as.Rhs[i]
+						}
+					}
+					return true
+				})
+			}
+			if n == 1 && def != nil {
+				return valueOK(def, depth+1)
+			}
+		}
+		return false
+	}
+	isField := func(obj types.Object) bool {
+		v, ok := obj.(*types.Var)
+		if !ok || !v.IsField() || v.Name() != field {
+			return false
+		}
+		ot := prog.Main.Types.Scope().Lookup(owner)
+		if ot == nil {
+			return false
+		}
+		st, ok := ot.Type().Underlying().(*types.Struct)
+		if !ok {
+			return false
+		}
+		for i := 0; i < st.NumFields(); i++ {
+			if st.Field(i) == v {
+				return true
+			}
+		}
+		return false
+	}
+	bad := func(n ast.Node, why string) {
+		o.Result, o.Trivial = "sat", false
+		o.Pos = prog.Fset.Position(n.Pos())
+		o.Model = fmt.Sprintf("%s is given %s at %s", fs[0], why, o.Pos)
+	}
+	for _, f := range prog.Main.Syntax {
+		if strings.HasSuffix(prog.Fset.Position(f.Pos()).Filename, "_test.go") {
+			continue
+		}
+		ast.Inspect(f, func(n ast.Node) bool {
+			switch st := n.(type) {
+			case *ast.AssignStmt:
+				for i, l := range st.Lhs {
+					se, ok := unparen(l).(*ast.SelectorExpr)
+					if !ok || !isField(info.Uses[se.Sel]) {
+						continue
+					}
+					if len(st.Rhs) != len(st.Lhs) || !valueOK(st.Rhs[i], 0) {
+						bad(n, "a value not known to be a "+fs[1])
+					}
+				}
+			case *ast.UnaryExpr:
+				if se, ok := unparen(st.X).(*ast.SelectorExpr); ok && st.Op == token.AND && isField(info.Uses[se.Sel]) {
+					bad(n, "an alias (its address is taken)")
+				}
+			case *ast.CompositeLit:
+				tv, has := info.Types[st]
+				if !has {
+					return true
+				}
+				t := tv.Type
+				if p, ok := t.(*types.Pointer); ok {
+					t = p.Elem()
+				}
+				nm, ok := t.(*types.Named)
+				if !ok || nm.Obj().Name() != owner {
+					return true
+				}
+				sty := nm.Underlying().(*types.Struct)
+				for i, el := range st.Elts {
+					if kv, ok := el.(*ast.KeyValueExpr); ok {
+						if id, ok := kv.Key.(*ast.Ident); ok && id.Name == field && !valueOK(kv.Value, 0) {
+							bad(el, "a value not known to be a "+fs[1])
+						}
+					} else if i < sty.NumFields() && sty.Field(i).Name() == field && !valueOK(el, 0) {
+						bad(el, "a value not known to be a "+fs[1])
+					}
+				}
+			}
+			return true
+		})
+	}
+	return o
 }
